@@ -301,6 +301,19 @@ def cmp(op, a, b):
     a, b = as_int(a), as_int(b)
     if isinstance(a, int) and isinstance(b, int):
         return {"<": a < b, "<=": a <= b, ">": a > b, ">=": a >= b, "==": a == b, "!=": a != b}[op]
+    # decided by the syntactic bounds?
+    la, ha, _ = bounds(a)
+    lb, hb, _ = bounds(b)
+    if ha is not None and lb is not None:
+        if ha < lb:
+            return {"<": True, "<=": True, ">": False, ">=": False, "==": False, "!=": True}[op]
+        if ha == lb and op in ("<=", ">"):
+            return op == "<="
+    if la is not None and hb is not None:
+        if la > hb:
+            return {"<": False, "<=": False, ">": True, ">=": True, "==": False, "!=": True}[op]
+        if la == hb and op in (">=", "<"):
+            return op == ">="
     x, y = zi(a), zi(b)
     t = {"<": x < y, "<=": x <= y, ">": x > y, ">=": x >= y, "==": x == y, "!=": x != y}[op]
     t = z3.simplify(t)
@@ -437,7 +450,7 @@ def new_block(ctx, n, base="blk", octets=True):
         for _ in range(n):
             v = ctx.fresh_int(base + "e")
             if octets:
-                ctx.assume(z3.And(v >= 0, v <= 255))
+                ctx.assume(z3.And(v >= 0, v <= (255 if octets is True else int(octets))))
             els.append(v)
         return els
     s = ctx.fresh_seq(base)
